@@ -34,6 +34,10 @@ pub struct Config18 {
     /// per thread: number of pre-existing handles to content A it starts with (0/1)
     pub pre: Vec<u8>,
     pub programs: Vec<Vec<SOp>>,
+    /// which free block the allocator hands out for a buffer header: 0 = whatever malloc does,
+    /// 1 = the most recently freed one, 2 = the least recently freed one (see alloctrack)
+    #[serde(default)]
+    pub alloc: u8,
 }
 
 /// live handle table shared with the controller: per thread, (content id, buffer address)
@@ -183,6 +187,7 @@ fn maker(
         // the table must be empty between executions so they do not alias (an execution the
         // controller aborted may also have left the lock poisoned)
         let start_len = rbx_types::verif::string_cache_len();
+        crate::alloctrack::recycle(cfg.alloc);
         rbx_types::verif::STRING_CACHE.clear_poison();
         if start_len != 0 {
             rbx_types::verif::reset_string_cache();
@@ -376,7 +381,7 @@ pub fn explore_config(cfg: &Config18, bound: Option<usize>, max_exec: u64, out: 
             let e = out.violations.entry(key).or_insert_with(|| {
                 (
                     0,
-                    format!("{} [programs {:?}, pre {:?}, schedule {:?}]", f, cfg.programs, cfg.pre, schedule),
+                    format!("{} [programs {:?}, pre {:?}, allocator policy {}, schedule {:?}]", f, cfg.programs, cfg.pre, cfg.alloc, schedule),
                     serde_json::to_string(&Case18 {
                         cfg: cfg.clone(),
                         schedule: schedule.clone(),
@@ -437,6 +442,7 @@ pub fn all_configs(threads: usize, max_len: usize) -> Vec<Config18> {
                 out.push(Config18 {
                     pre: pre.clone(),
                     programs,
+                    alloc: 0,
                 });
             }
             let mut k = 0;
@@ -453,6 +459,27 @@ pub fn all_configs(threads: usize, max_len: usize) -> Vec<Config18> {
             }
             if k == threads {
                 break;
+            }
+        }
+    }
+    out
+}
+
+/// Two threads with programs of different lengths: thread 0 runs at most `short_len` operations,
+/// thread 1 between `min_long` and `long_len`. With a small preemption bound this reaches the
+/// states where one thread is parked inside a single operation while the other goes through
+/// several whole create/drop cycles (buffers and table slots being recycled meanwhile).
+pub fn asym_configs(short_len: usize, min_long: usize, long_len: usize) -> Vec<Config18> {
+    let mut out = Vec::new();
+    for pre in [vec![1u8, 0], vec![0, 0], vec![1, 1]] {
+        for a in valid_programs(short_len, pre[0]) {
+            for b in valid_programs(long_len, pre[1]) {
+                if b.len() < min_long {
+                    continue;
+                }
+                for alloc in [1u8, 2] {
+                    out.push(Config18 { pre: pre.clone(), programs: vec![a.clone(), b.clone()], alloc });
+                }
             }
         }
     }
@@ -487,6 +514,12 @@ pub fn replay(case_v: &Value) -> Vec<String> {
         Err(e) => crate::evidence::machinery_failure(&format!("bad C18 replay case: {}", e)),
     };
     let (e1, o1) = run_config_once(&case.cfg, &case.schedule);
+    if std::env::var_os("VERIF_C18_TRACE").is_some() {
+        for p in &e1.points {
+            eprintln!("point {:?}", p);
+        }
+        crate::alloctrack::dump_log();
+    }
     drop(e1);
     let (e2, o2) = run_config_once(&case.cfg, &case.schedule);
     drop(e2);
